@@ -78,6 +78,9 @@ pub const STATEMENTS: &[(&str, &str)] = &[
     ("pragma", "pragma some words here\n"),
     ("pragma-hash", "#pragma other words\n"),
     ("annotation", "@ann thing 1 2\n"),
+    ("pragma-bare", "pragma\n"),
+    ("pragma-hash-bare", "#pragma\n"),
+    ("annotation-bare", "@ann\n"),
     ("include-std", "include \"stdgates.inc\";"),
     ("include-file", "include \"other.qasm\";"),
     ("version", "OPENQASM 3.0;"),
@@ -138,6 +141,8 @@ const ROUTINE_SWITCHING: &[&str] = &[
     "empty", "qreg", "creg", "gate-call", "gate-call-params", "gate-call-2q", "gate-call-hw", "gate-call-mod", "gphase", "measure-stmt",
     "measure-assign", "return", "return-value", "assign", "assign-ident", "assign-paren", "assign-indexed", "assign-compound", "expr-stmt",
     "neg-expr-stmt", "paren-expr-stmt", "paren-call-stmt", "call-stmt", "index-stmt", "pragma", "pragma-hash", "annotation", "version", "block",
+    // (other spellings of the same statement kinds)
+    "pragma-bare", "pragma-hash-bare", "annotation-bare",
 ];
 
 fn check_sequence(idxs: &[usize], ctx: usize, sep: &str, obs: &mut Obs) {
@@ -243,7 +248,7 @@ impl Property for C16 {
         "C16"
     }
     fn rule(&self) -> &'static str {
-        "Metamorphic over the real parser: 76 statement texts covering every statement kind (incl. the empty statement, pragma, annotation, version header, calibration and array forms). A statement belongs to the workload iff it parses with zero diagnostics alone (decided at run time). All ordered pairs (quick and thorough), all triples over a 12-kind subset and random sequences up to length 12, each at file level and inside gate/def/if/else/while/for/case/default block bodies, with space and newline separators: the concatenation must parse with zero diagnostics and its statement list (kind, whitespace-normalised text) must equal the concatenation of the individually parsed lists. One evaluation = one (sequence, context, separator). Non-trivial: >= 2 statements expected. Distinct: hash of the source."
+        "Metamorphic over the real parser: 76 statement texts covering every statement kind (incl. the empty statement, pragma, annotation, version header, calibration and array forms). A statement belongs to the workload iff it parses with zero diagnostics alone (decided at run time). All ordered pairs (quick and thorough), all triples over a 12-kind subset and random sequences up to length 12, each at file level and inside gate/def/if/else/while/for/case/default block bodies, with five separators (blank, line break, trailing line comment, comment line directly above the next statement, block comment): the concatenation must parse with zero diagnostics and its statement list (kind, whitespace-normalised text) must equal the concatenation of the individually parsed lists. One evaluation = one (sequence, context, separator). Non-trivial: >= 2 statements expected. Distinct: hash of the source."
     }
     fn streams(&self, tier: Tier, seed: u64) -> Vec<Stream> {
         let n = STATEMENTS.len() as u64;
@@ -251,9 +256,9 @@ impl Property for C16 {
         let t = TRIPLE_SUBSET.len() as u64;
         let mut v = vec![
             Stream::new("singles-in-every-context", n * nc, true, move |i| format!("seq:{}:{}:0", i % n, i / n)),
-            Stream::new("all-ordered-pairs-in-every-context", n * n * nc * 2, true, move |i| {
-                let sep = i % 2;
-                let j = i / 2;
+            Stream::new("all-ordered-pairs-in-every-context", n * n * nc * 5, true, move |i| {
+                let sep = i % 5;
+                let j = i / 5;
                 format!("seq:{},{}:{}:{sep}", j % n, (j / n) % n, j / n / n)
             }),
             Stream::new("all-triples-over-12-kinds-in-every-context", t * t * t * nc, true, move |i| {
@@ -268,7 +273,7 @@ impl Property for C16 {
             let mut r = Rng::new(mix(&[seed, 0xC16, i]));
             let len = r.range(2, 12);
             let seq: Vec<String> = (0..len).map(|_| r.below(n).to_string()).collect();
-            format!("seq:{}:{}:{}", seq.join(","), r.below(nc), r.below(2))
+            format!("seq:{}:{}:{}", seq.join(","), r.below(nc), r.below(5))
         }));
         v
     }
@@ -294,7 +299,15 @@ impl Property for C16 {
                 .and_then(|c| c.parse::<usize>().ok().or_else(|| CONTEXTS.iter().position(|x| x.0 == *c)))
                 .unwrap_or(0)
                 .min(CONTEXTS.len() - 1);
-            let sep = if parts.get(2).map(|s| *s == "1").unwrap_or(false) { "\n" } else { " " };
+            // separators: blank, line break, trailing remark, comment line directly above the next
+            // statement, block comment
+            let sep = match parts.get(2).copied().unwrap_or("0") {
+                "1" => "\n",
+                "2" => " // remark on the statement before\n",
+                "3" => "\n// comment line directly above\n",
+                "4" => " /* between */ ",
+                _ => " ",
+            };
             if !clean_context(ctx) {
                 obs.inconclusive("context wrapper does not parse cleanly");
                 return;
